@@ -21,6 +21,7 @@ if REPO not in sys.path:
 import warnings  # noqa: E402
 warnings.filterwarnings('ignore')
 import logging  # noqa: E402
+logging.disable(logging.WARNING)      # the repository warns on some inputs; keep the checks' output clean
 logging.getLogger('cgsmiles').setLevel(logging.ERROR)
 logging.getLogger('sxcg').setLevel(logging.ERROR)
 logging.getLogger('pysmiles').setLevel(logging.ERROR)
